@@ -3,11 +3,17 @@ use std::io::{BufRead, Write};
 use std::sync::Arc;
 use usvg::fontdb;
 
-pub const FONTS_DIR: &str = "/repo/crates/resvg/tests/fonts";
+pub fn repo_root() -> String {
+    std::env::var("VERIF_REPO").unwrap_or_else(|_| "/repo".to_string())
+}
+
+pub fn fonts_dir() -> String {
+    format!("{}/crates/resvg/tests/fonts", repo_root())
+}
 
 pub fn make_fontdb() -> Arc<fontdb::Database> {
     let mut db = fontdb::Database::new();
-    db.load_fonts_dir(FONTS_DIR);
+    db.load_fonts_dir(fonts_dir());
     db.set_serif_family("Noto Serif");
     db.set_sans_serif_family("Noto Sans");
     db.set_cursive_family("Yellowtail");
